@@ -364,9 +364,9 @@ impl Prop for C07P {
                 sec("pinned", 160),
                 sec_ex("token-sequences-exhaustive", total.div_ceil(BLOCK)),
                 sec_ex("chain-parenthesisation-matrix", chain_total()),
-                sec("random-sentences", tier.pick(12_000, 250_000)),
+                sec("random-sentences", tier.pick(24_000, 250_000)),
                 sec("sentence-mutants", tier.pick(4_000, 80_000)),
-                sec("level-confusion-sentences", tier.pick(20_000, 400_000)),
+                sec("level-confusion-sentences", tier.pick(40_000, 400_000)),
             ],
             "every token sequence of <=4 (quick) / <=5 (thorough) tokens over the 28 terminals of grammar.y (identifiers spelled `_`); every chain of 2-4 operands of application, * /, + - with each operand in 6 parenthesisation forms, alone and embedded in 6 enclosing constructs (let annotation, lambda domain, condition and branch, definition and body, implicit-pi domain and negation, comparison operand and application argument); near-sentences in which one nonterminal was expanded at the wrong precedence level; random sentences derived from grammar.y (3-80 tokens, variables drawn from an initial context, distinct literals) and their single-token deletions/insertions/substitutions; each judged by an independent chart parser that reads grammar.y: accept/reject, number of derivations, and the left-associated tree; non-trivial = distinct sentence accepted by the reference",
         );
